@@ -188,6 +188,19 @@ def run(ctx, res):
     rid6 = res.rule("C03-R6", "the children of an existing SPPF solution are replaced (right-nulled extension) only if that solution "
                     "is labelled with the production being reduced and the new path is longer", floor=1)
     nst = 0
+    # the loop that scans the possibilities of the edge: the innermost loop around the statement that stores the new children
+    from . import tbl
+    poss_header = None
+    tbr = TermBuilder(r, F)
+    for h, body in sorted(tbl.loops_of(r).items(), key=lambda kv: len(kv[1])):
+        for b in body | {h}:
+            tm = r.blocks[b]["term"]
+            if tm["k"] == "call" and mir.call_matches(callee(tm), "Iterator::next") and tm["args"] and \
+                    has_field(tbr.operand(tm["args"][0]), "possibilities") and has_call(tbr.operand(tm["args"][0]), "iter_mut"):
+                poss_header = h
+                break
+        if poss_header is not None:
+            break
     for p in rpaths:
         for i, e in enumerate(p.events):
             if e[0] == "store" and isinstance(e[1], tuple) and has_field(e[1], "children") is not None and "children" in fmt(e[1])[-40:] \
@@ -216,7 +229,14 @@ def run(ctx, res):
                     # op is now `parents op children`
                     return {("Gt", 1): 1, ("Le", 0): 1, ("Gt", 0): 0, ("Le", 1): 0, ("Lt", 1): 0, ("Ge", 0): 0}.get((op, v))
                 longer = [(c[0], c[1], longer_of(c)) for c in prior if longer_of(c) is not None]
-                if eqs and eqs[-1][2] == 1 and longer and longer[-1][2] == 1:
+                # ... and exactly ONE solution is extended: after the replacement the scan over the possibilities is left
+                # (the path does not go round that loop again; the remaining solutions of the edge keep their children)
+                again = poss_header is not None and ("backedge", poss_header) in p.events[i + 1:]
+                if eqs and eqs[-1][2] == 1 and longer and longer[-1][2] == 1 and again:
+                    res.violation(rid6, "replace-children", "after the children of one solution were replaced the scan goes on over the "
+                                  "other possibilities of the edge: every shorter solution of that production is overwritten with the "
+                                  "same children (duplicate trees, lost trees)", r.loc())
+                elif eqs and eqs[-1][2] == 1 and longer and longer[-1][2] == 1:
                     res.ok(rid6, "replace-children", r.loc(), "prod == production && path longer")
                 else:
                     res.violation(rid6, "replace-children", "the children of an existing solution are overwritten without checking that the "
@@ -334,6 +354,9 @@ def run(ctx, res):
         if okit:
             res.ok(rid5, "iter/%s" % ("into" if "IntoIter" in it.path else "ref"), it.loc(), "get_tree(tree_idx); advance only on Some")
     r7_registration(F, res)
+    rid8 = res.rule("C03-R8", "every lookahead the lexer and the documented strategies leave is followed: nothing else takes tokens out of "
+                    "the candidate list (shared with C06-R4: a dropped lookahead is a lost derivation)", floor=2)
+    rt.token_mutators(F, res, rid8)
     res.explanation = (
         "THIN claim. Decides the structural clauses the property's why-text names and for which the definition of a GSS / RN "
         "table is an oracle: shifted heads keyed by (state, position); per-lookahead sub-frontiers keyed consistently through "
